@@ -76,8 +76,8 @@ def check(ctx):
         ok = bool(find(pat, f)) or bool(find(pat.replace("(vchunks, hchunks)", "vchunks, hchunks"), f))
         ctx.ob("DELEG.chunks", f, f"{fn}: {pat}", ok)
     ey = mod.func("eye")
-    ok = (all("shape=(N, M)" in unparse(r.value) and "chunks=(chunks, chunks)" in unparse(r.value) for r in returns(ey)) and bool(returns(ey))) and bool(find("chunks = vchunks[0]", ey))
-    ctx.ob("DELEG.chunks.eye", ey, "eye declares shape (N, M) with the uniform block size it generated blocks for", ok)
+    ok = (all("shape=(N, M)" in unparse(r.value) and "chunks=(vchunks, hchunks)" in unparse(r.value) for r in returns(ey)) and bool(returns(ey)))
+    ctx.ob("DELEG.chunks.eye", ey, "eye declares shape (N, M) with the row and column chunks it generated blocks for", ok, "" if ok else "declaring one block size for both dimensions (the first row chunk) is wrong whenever N != M and the chunk size exceeds one of them")
     n = check_pairs(ctx, pairs_for("C34"))
     ctx.count("twin_pairs", n)
     ctx.floor("twin_pairs", 5)
@@ -91,6 +91,14 @@ def check(ctx):
     mg = [c for c in calls(ff, "meshgrid")]
     ok = len(mg) == 1 and kwarg(mg[0], "indexing") is not None and unparse(kwarg(mg[0], "indexing")) == "'ij'" and (kwarg(mg[0], "sparse") is None or unparse(kwarg(mg[0], "sparse")) == "False")
     ctx.ob("ALG.fromfunction.dense-grids", ff, "coordinate arrays come from a dense meshgrid(..., indexing='ij')", ok, "" if ok else "sparse grids have extent 1 on the other axes: a func that does not use every coordinate returns blocks of the wrong shape")
+    # ---------------- eye: every block gets the diagonal that passes through it, from the block's own position
+    ey = mod.func("eye")
+    ok = bool(find("block_k = k - (col - row)", ey)) and bool(find("col += hchunk", ey)) and bool(find("row += vchunk", ey))
+    conds = [n for n in ast.walk(ey) if isinstance(n, ast.If) and "block_k" in unparse(n.test)]
+    ok = ok and len(conds) == 1 and eqv(conds[0].test, "-vchunk < block_k < hchunk") and bool(find("Task(key, np.eye, vchunk, hchunk, block_k, dtype)", conds[0])) and bool(find("Task(key, np.zeros, (vchunk, hchunk), dtype)", conds[0]))
+    ctx.ob("ALG.eye.block-diagonal", ey, "block (i, j) starting at (row, col) holds diagonal k - (col - row) iff -rows < that < columns; else zeros", ok, "" if ok else "a block that the k-th diagonal crosses is filled with zeros (or gets the wrong diagonal): ones are lost for ragged edge blocks / k != 0")
+    ok = (all(eqv(kwarg(c, "chunks"), "(vchunks, hchunks)") for r in returns(ey) for c in [r.value] if isinstance(c, ast.Call)) and bool(returns(ey)))
+    ctx.ob("ALG.eye.declared-chunks", ey, "eye declares chunks=(vchunks, hchunks), the chunks its blocks were built for", ok, "" if ok else "declared chunks differ from the generated blocks: Missing dependency / wrong block shapes when N != M")
 
 
 VARIANTS = [
